@@ -1,7 +1,9 @@
 package props
 
 import (
+	"strings"
 	"testing"
+	"time"
 
 	"pgregory.net/rapid"
 
@@ -13,7 +15,39 @@ import (
 
 var c11Entries = []string{"write", "write1", "writev", "ctxwrite1", "ctxwritev", "readfrom", "writerwrite"}
 
+// genC11Loser: one Close is still waiting for a stalled sender while a second Close call
+// (which loses the election) has already returned; writes that begin after that return must fail.
+func genC11Loser(t *rapid.T) E1Case {
+	var c E1Case
+	c.Kind = rapid.SampledFrom([]string{"qblock", "qnonblock"}).Draw(t, "kind")
+	c.Queue = rapid.SampledFrom([]int{2, 4, 8}).Draw(t, "queue")
+	c.Stall = "never"
+	pre := E1Task{Role: "writer"}
+	for i := rapid.IntRange(1, 2).Draw(t, "npre"); i > 0; i-- {
+		pre.Ops = append(pre.Ops, E1Op{Op: "write1", Sizes: []int{rapid.IntRange(1, 9).Draw(t, "presz")}})
+	}
+	c.Tasks = append(c.Tasks, pre)
+	c.Tasks = append(c.Tasks, E1Task{Role: "closer", After: []int{0}, Ops: []E1Op{{Op: "close", Err: rapid.SampledFrom([]string{"nil", "sentinel"}).Draw(t, "cerr1")}}})
+	c.Tasks = append(c.Tasks, E1Task{Role: "closer", After: []int{0}, Ops: []E1Op{{Op: "close", Err: rapid.SampledFrom([]string{"nil", "wrapped"}).Draw(t, "cerr2")}}})
+	w := E1Task{Role: "writer", After: []int{2}}
+	for i := rapid.IntRange(2, 8).Draw(t, "reps"); i > 0; i-- {
+		e := rapid.SampledFrom(c11Entries).Draw(t, "entry")
+		op := E1Op{Op: e, Sizes: []int{rapid.IntRange(1, 20).Draw(t, "sz")}}
+		if e == "readfrom" {
+			op.N = 700
+		}
+		w.Ops = append(w.Ops, op)
+	}
+	c.Tasks = append(c.Tasks, w)
+	c.Prefix = []E1Dir{{Task: 0, Label: "\x00end"}, {Task: 1, Label: "close.wait"}}
+	c.Schedule = genSchedule(t, 60)
+	return c
+}
+
 func genC11(t *rapid.T) E1Case {
+	if rapid.IntRange(0, 5).Draw(t, "loser") == 0 {
+		return genC11Loser(t)
+	}
 	var c E1Case
 	genKind(t, &c, []string{"sync", "qblock", "qblock", "qnonblock"})
 	source := rapid.SampledFrom([]string{"user", "user", "user", "parentcancel", "peereof", "readfail", "senderfail"}).Draw(t, "source")
@@ -89,6 +123,28 @@ func runC11(c E1Case) (out core.Outcome) {
 		return
 	}
 	r.baseClasses()
+	// terminal probe: a Write parked because a Close is still pending must really be waiting
+	// (the harness parks it on the assumption that it would block; verify instead of assuming)
+	for _, t := range r.tasks {
+		if !t.Done() && t.Label() == "write.closing" && r.ch.Context().Err() == nil {
+			e1cur = r
+			back, state := r.s.ForceResume(t, 80*time.Millisecond)
+			e1cur = nil
+			if !back && !strings.Contains(state, "select") && !strings.Contains(state, "chan receive") {
+				out.Inconclusive = "terminal probe: Write neither returned nor waits for the pending Close: " + state
+				r.sweep(true)
+				return
+			}
+			if back {
+				r.cls.Add("probe:write-did-not-wait-for-pending-close")
+			} else {
+				r.cls.Add("probe:write-waits-for-pending-close")
+			}
+			break
+		}
+	}
+	// release stalled senders: calls waiting for a pending Close may now finish
+	r.sweep(false)
 	defer func() {
 		r.sweep(true)
 		if out.Violation == nil && r.incon != "" {
@@ -133,7 +189,23 @@ func runC11(c E1Case) (out core.Outcome) {
 		if !isWriteOp(w.Op.Op) || w.End == 0 {
 			continue
 		}
-		afterClose := w.Begin > closedAt && r.c.Tasks[w.Task].After != nil
+		afterClose := false
+		for _, a := range r.c.Tasks[w.Task].After {
+			switch {
+			case a == afterClosed:
+				afterClose = w.Begin > closedAt
+			case a >= 0 && a < len(r.c.Tasks) && r.c.Tasks[a].Role == "closer":
+				// after some Close call returned (possibly one that lost the election to a still pending Close)
+				for _, cc := range r.closeCalls {
+					if cc.Task == a && cc.End != 0 && w.Begin > cc.End {
+						afterClose = true
+						if cc.End < closedAt {
+							r.cls.Add("after-losing-close-returned")
+						}
+					}
+				}
+			}
+		}
 		if afterClose {
 			r.cls.Add("after-close:%s:%s", w.Op.Op, c.Kind)
 			st := ""
